@@ -219,6 +219,8 @@ static inline void auditForest(forest* f, const std::string& kind, Ctx& c, const
             if (!haveZero) throw Violation(K("evplus-unnormalised"), nodeStr(f, p) + ": smallest edge value is not 0");
         }
         if (evt) {
+            // zero has one representation in EV*: the transparent edge.  A listed (non-transparent) edge with value +-0 is a second one.
+            for (const NodeEntry& e : ents) { float x; uint32_t bb = uint32_t(e.ev); memcpy(&x, &bb, 4); if (x == 0.0f) throw Violation(K("evtimes-zero-edge-not-transparent"), nodeStr(f, p) + ": edge " + tos(e.idx) + " has value 0 but is not the transparent edge"); }
             float first; uint32_t b = uint32_t(ents[0].ev); memcpy(&first, &b, 4);
             if (first != 1.0f) throw Violation(K("evtimes-unnormalised"), nodeStr(f, p) + ": first non-zero edge value is " + tos(first) + ", not 1");
         }
